@@ -28,6 +28,7 @@ type RangeIter struct {
 	MapType *types.Map
 	Visited *Cell
 	IsStr   bool
+	Dom0    *Term // key set of the map when the range statement started
 }
 
 type Cell struct {
